@@ -71,7 +71,7 @@ type Project struct {
 type Layout struct {
 	NL        string `json:"nl"`         // "\n", "\r\n", "\r"
 	Multi     int    `json:"multi"`      // 0 inline //, 1 /* */ on one line, 2 /* */ with the note on its own line
-	Quote     bool   `json:"quote"`      // rule names in quotes
+	Quote     int    `json:"quote"`      // rule names: 0 bare, 1 quoted, 2 quoted at the top / bare in nested rule-sets, 3 the reverse, 4 every second name
 	Pad       int    `json:"pad"`        // 0..2 extra blanks around tokens
 	Comments  int    `json:"comments"`   // 0 none, 1 '#' lines, 2 '###' blocks and end-of-line '#'
 	LeadBlank int    `json:"lead_blank"` // blank lines before
@@ -106,16 +106,32 @@ func (l Layout) ruleVal(v RuleVal) string {
 		}
 		return "[" + l.sp() + strings.Join(parts, ","+l.sp()+" ") + l.sp() + "]"
 	case "object":
-		return l.ruleSet(v.Props)
+		return l.ruleSetAt(v.Props, 1)
 	}
 	return "?"
 }
 
-func (l Layout) ruleSet(rules []Rule) string {
+func (l Layout) quoted(depth, i int) bool {
+	switch l.Quote {
+	case 1:
+		return true
+	case 2:
+		return depth == 0
+	case 3:
+		return depth > 0
+	case 4:
+		return (i+depth)%2 == 0
+	}
+	return false
+}
+
+func (l Layout) ruleSet(rules []Rule) string { return l.ruleSetAt(rules, 0) }
+
+func (l Layout) ruleSetAt(rules []Rule, depth int) string {
 	var parts []string
-	for _, r := range rules {
+	for i, r := range rules {
 		name := r.N
-		if l.Quote {
+		if l.quoted(depth, i) {
 			name = `"` + name + `"`
 		}
 		parts = append(parts, name+l.sp()+":"+l.sp()+" "+l.ruleVal(r.V))
